@@ -170,6 +170,19 @@ def gen_cases(rng, tier):
         }
     # monitor-only streams (appended: the hb cases above stay the same for a given seed)
     yield from gen_mf_cases(rng, tier)
+    # training scripts that end by themselves early and often: trials that complete BEFORE the searcher was updated for them even
+    # once (policy rungs with a first milestone above 1, trials of higher brackets) still have their pending entry removed
+    for _ in range(10 if tier == "quick" else 120):
+        typ = rng.choice(["stopping", "promotion"])
+        c = gen_ctor(rng, typ)
+        while c.get("grace_period", 2) < 2 and c.get("brackets", 1) < 2 and (c.get("rung_levels") or [2])[0] < 2:
+            c = gen_ctor(rng, typ)
+        c["searcher"] = "bayesopt"
+        c["searcher_data"] = rng.choice(["rungs", "rungs", "all", "rungs_and_last"])
+        c["max_resource_attr"] = rng.random() < 0.5
+        yield {"ctor": c, "seed": rng.randrange(10 ** 9), "n_workers": rng.randint(1, 4),
+               "max_events": rng.choice([40, 80]) if tier == "quick" else rng.choice([80, 160]),
+               "style": "grid", "checkpointing": rng.random() < 0.5, "p_fail": rng.choice([0, 0.05]), "p_early": rng.choice([0.2, 0.35])}
 
 
 def corpus():
@@ -185,6 +198,7 @@ def data_monitor(spec, lines, events):
     reported = {}      # (trial, level) -> list of metric values reported at that level (non-ignored runs)
     expected = {}      # trial -> set of levels the data policy selects among the levels it has reported
     last_nonrung = {}  # rungs_and_last: the latest reported level if it is not a rung level
+    optional = {}      # trial -> levels that may be stored in addition (last result passed again by on_trial_complete)
     rung_levels = None
     running = set()
     last_result = {}
@@ -227,6 +241,10 @@ def data_monitor(spec, lines, events):
                 running.discard(ev["trial"])
         elif k in ("remove", "complete", "error"):
             running.discard(ev["trial"])
+            if k == "complete":
+                # on_trial_complete passes the last result once more iff its level is above the largest level stored so far for
+                # the trial: with policy rungs the final, possibly non-rung, level of a completed trial may be stored
+                optional.setdefault(ev["trial"], set()).add(ev["resource"])
         if "pending" not in impl:
             continue
         obs = {}
@@ -245,7 +263,7 @@ def data_monitor(spec, lines, events):
             for (t, r) in obs:
                 have.setdefault(t, set()).add(r)
             for t in set(have) | set(expected):
-                if have.get(t, set()) != expected.get(t, set()):
+                if not (expected.get(t, set()) <= have.get(t, set()) <= (expected.get(t, set()) | optional.get(t, set()))):
                     out.append({"signature": "c14:policy-levels", "what":
                                 f"searcher_data={policy}: trial {t} has observations at levels {sorted(have.get(t, set()))}, the policy "
                                 f"selects {sorted(expected.get(t, set()))} of the levels it reported", "detail": ev})
